@@ -47,15 +47,43 @@ def _worker_init():
     guard.install()
 
 
+class _DebugLogging:
+    """the library with its loggers switched to DEBUG (records go to a null handler): every logging statement formats its
+    arguments and every isEnabledFor(DEBUG) branch is taken - a deployment's log level must not change what it does"""
+
+    def __init__(self, on):
+        self.on = on
+
+    def __enter__(self):
+        if self.on:
+            self.saved = (logging.root.manager.disable, logging.root.level, logging.getLogger("indi").level)
+            self.handler = logging.NullHandler()
+            logging.root.addHandler(self.handler)
+            logging.root.setLevel(logging.DEBUG)
+            logging.getLogger("indi").setLevel(logging.DEBUG)
+            logging.disable(logging.NOTSET)
+            logging.raiseExceptions = True
+
+    def __exit__(self, *a):
+        if self.on:
+            logging.disable(self.saved[0])
+            logging.root.setLevel(self.saved[1])
+            logging.getLogger("indi").setLevel(self.saved[2])
+            logging.root.removeHandler(self.handler)
+
+
 def _run_shard(args):
-    modname, shard, limit = args
+    modname, shard, limit = args[:3]
+    debuglog = len(args) > 3 and args[3]
     mod = importlib.import_module(modname)
     signal.signal(signal.SIGALRM, _alarm)
     signal.setitimer(signal.ITIMER_REAL, limit)
     t0 = time.time()
     try:
-        res = mod.run_shard(shard)
+        with _DebugLogging(debuglog):
+            res = mod.run_shard(shard)
         res["_ok"] = True
+        res["_debuglog"] = bool(debuglog)
     except ShardTimeout:
         res = {"_ok": False, "_err": "Hang: shard %r exceeded %ss" % (shard, limit), "_hang": True}
     except Exception as e:
@@ -179,6 +207,10 @@ def main(argv=None):
     limit = getattr(mod, "SHARD_LIMIT", {"quick": 600, "thorough": 7200})[a.tier]
     jobs = max(1, min(a.jobs, len(shards)))
     work = [(modname, s, limit) for s in shards]
+    # every k-th shard is run a second time with the library's loggers at DEBUG (only its violations are kept)
+    k_dbg = int(os.environ.get("VERIF_DEBUGLOG_EVERY", "8" if a.tier == "quick" else "16"))
+    if k_dbg > 0:
+        work += [(modname, s, limit, True) for i, s in enumerate(shards) if i % k_dbg == 0]
     if jobs == 1:
         _worker_init_serial()
         results = [_run_shard(w) for w in work]
@@ -196,7 +228,15 @@ def main(argv=None):
             print("  slow shard %.1fs %s" % (r["_wall"], r["_shard"]))
     harness_errors = [r for r in results if not r["_ok"] and not r.get("_hang")]
     hangs = [r for r in results if r.get("_hang")]
-    m = merge([r for r in results if r["_ok"]])
+    dbg = [r for r in results if r["_ok"] and r.get("_debuglog")]
+    m = merge([r for r in results if r["_ok"] and not r.get("_debuglog")])
+    for r in dbg:
+        for v in r.get("violations", []):
+            v = dict(v, disc=v["disc"] + ",debug-logging")
+            if isinstance(v.get("replay"), dict):
+                v["replay"] = dict(v["replay"], _debuglog=True)
+            m["violations"].append(v)
+    m["counters"]["shards_repeated_with_debug_logging"] = len(dbg)
     for h in hangs:
         m["violations"].append(
             {"clause": "hang", "disc": "shard-wall-limit", "what": h["_err"], "replay": {"shard": h["_shard"]}}
@@ -268,7 +308,11 @@ def main(argv=None):
         tried += 1
         try:
             rp = json.loads(json.dumps(v["replay"], default=repr))
-            again = _replay_shard(mod, rp["_shard"]) if isinstance(rp, dict) and "_shard" in rp else mod.replay(rp)
+            dl = isinstance(rp, dict) and rp.pop("_debuglog", False)
+            with _DebugLogging(dl):
+                again = _replay_shard(mod, rp["_shard"]) if isinstance(rp, dict) and "_shard" in rp else mod.replay(rp)
+            if dl and again:
+                again = [dict(x, disc=x["disc"] + ",debug-logging") for x in again]
         except Exception as e:  # noqa
             again = None
             sys.stderr.write("replay of %s / %s raised %r\n" % (v["clause"], v["disc"], e))
@@ -322,10 +366,15 @@ def do_replay(mod, prop, path):
         rep = json.load(f)
     obs = []
     for i in range(2):
-        if isinstance(rep["replay"], dict) and "_shard" in rep["replay"]:
-            vs = _replay_shard(mod, rep["replay"]["_shard"])
-        else:
-            vs = mod.replay(rep["replay"])
+        rp = dict(rep["replay"]) if isinstance(rep["replay"], dict) else rep["replay"]
+        dl = isinstance(rp, dict) and rp.pop("_debuglog", False)
+        with _DebugLogging(dl):
+            if isinstance(rp, dict) and "_shard" in rp:
+                vs = _replay_shard(mod, rp["_shard"])
+            else:
+                vs = mod.replay(rp)
+        if dl:
+            vs = [dict(x, disc=x["disc"] + ",debug-logging") for x in vs]
         obs.append(json.dumps([(v["clause"], v["disc"], v.get("what", "")) for v in vs], sort_keys=True, default=repr))
     import re
 
